@@ -30,6 +30,9 @@ MAINS = {
     "halt": bytes([0xDE, 0x00, 0x13, 0x04]),
     "off": bytes([0xDF, 0x00, 0x13, 0x04]),
     "wait": bytes([0x0B, 0x03, 0x00, 0xEF, 0x13, 0x06]),
+    # the firmware idiom of a critical section: master enable cleared and set again by memory-addressed writes, so that
+    # requests keep arriving exactly at the boundaries where bit 7 changes
+    "toggle": bytes([0x32, 0x71, 0xFB, 0x7F, 0x00, 0x32, 0x79, 0xFB, 0x80, 0x00, 0x13, 0x0C]),
 }
 BODIES = {
     "empty": b"",
